@@ -125,10 +125,23 @@ def main():
         sys.exit(2)
     except common.PropertyFailure as e:
         oc.violations.append(e.payload)
+    except OSError as e:
+        import errno
+        if e.errno in (errno.ENOSPC, errno.EMFILE, errno.ENFILE, errno.ENOMEM, errno.EDQUOT):
+            say("INFRA: %s" % e)
+            sys.exit(2)
+        harness_exc = traceback.format_exc()
     except Exception:
-        say("INFRA: the harness raised an unexpected exception (no verdict):")
-        say(traceback.format_exc())
-        sys.exit(2)
+        harness_exc = traceback.format_exc()
+    else:
+        harness_exc = None
+    if harness_exc:
+        # The scenario code stopped on something the tools returned or left behind (a missing output file, a value of another shape): on
+        # the unchanged tree this never happens (soaked over many seeds), so it is treated like a broken correspondence - the module's
+        # search looks for a concrete failing input; without one the verdict names this traceback (no-failing-input-found).
+        say("the scenario code raised on what the tools returned (treated as a broken correspondence):")
+        say(harness_exc[-1500:])
+        oc.x_disagreements.append({"harness_exception": harness_exc[-3000:]})
     if hangs and hangs[0] not in oc.violations:
         oc.violations.insert(0, hangs[0])
 
@@ -192,6 +205,11 @@ def main():
             except Infra as e:
                 say("INFRA: %s" % e)
                 sys.exit(2)
+            except common.PropertyFailure as e:
+                found = e.payload
+            except Exception:
+                oc.notes.append("the failing-input search raised as well: %s" % traceback.format_exc()[-800:])
+                found = None
         if found and not (found.get("finding") in known_ids):
             v = dict(found)
             v.update({"property": pid, "tier": tier, "seed": seed, "kind": "concrete-failing-input",
